@@ -72,7 +72,8 @@ static void cmp8(const char* op, const range_t<int8_t>& r, ISet exp, const std::
     for (int x = -128; x <= 127; ++x) {
         bool in_exp = !exp.empty() && exp.lo <= x && x <= exp.hi;
         bool in_act = !r.empty() && r.first() <= x && x <= r.last();
-        if (in_exp != in_act) {
+        // the library's own membership predicates, applied to the result (which may be empty)
+        if (in_exp != in_act || r.contains((int8_t)x) != in_exp || (r && (int8_t)x) != in_exp) {
             bad = true;
             witness = x;
             break;
@@ -201,6 +202,14 @@ static void binary8(int a, int b, int c, int d, bool brute_mult, LocalCount& lc)
         r.intersect(y);
         if (!same8(r, e) || !same8(x.intersection(y), e))
             viol("intersect:int8", ex());
+        // membership in the result by the library's own predicate (an empty result has no members)
+        for (int p : {a, b, c, d, std::max(a, c), std::min(b, d), 0, -128, 127}) {
+            bool in = !e.empty() && e.lo <= p && p <= e.hi;
+            if (r.contains((int8_t)p) != in) {
+                viol("inter:int8:contains-on-result", ex() + " contains " + std::to_string(p));
+                break;
+            }
+        }
     }
     {
         lc.op("union");
@@ -336,7 +345,12 @@ static void grid(const std::vector<T>& g, const std::vector<T>& probes, LocalCou
     using R = range_t<T>;
     using W = typename Wide<T>::type;
     const std::string tn = Wide<T>::name();
-    auto member = [](const R& r, T x) { return !r.empty() && r.first() <= x && x <= r.last(); };
+    auto member = [](const R& r, T x) {
+        bool m = !r.empty() && r.first() <= x && x <= r.last();
+        if (r.contains(x) != m || (r && x) != m)      // the library's own predicates on a result (which may be empty)
+            viol(std::string("contains_on_result:") + Wide<T>::name(), "[" + vs(r.first()) + "," + vs(r.last()) + "].contains(" + vs(x) + ")");
+        return m;
+    };
     for (T a : g)
         for (T b : g) {
             if (!(a <= b))
